@@ -32,7 +32,8 @@ package forwarder
 //@ func (d Driver) RemovePDR(seid uint64, req *ie.IE) (err error)
 //@   requires req != nil
 //@   requires [made] RuleKey(seid, 1, uint64(val(req.PDRID()))) in CREATED
-//@   ensures [gone] DP == remove(old(DP), RuleKey(seid, 1, uint64(val(req.PDRID()))))
+//@   ensures [gone] err == nil ==> DP == remove(old(DP), RuleKey(seid, 1, uint64(val(req.PDRID()))))
+//@   ensures [kept] err != nil ==> DP == old(DP)
 //@   modifies DP
 
 //@ func (d Driver) CreateFAR(seid uint64, req *ie.IE) (err error)
@@ -51,7 +52,8 @@ package forwarder
 //@ func (d Driver) RemoveFAR(seid uint64, req *ie.IE) (err error)
 //@   requires req != nil
 //@   requires [made] RuleKey(seid, 2, uint64(val(req.FARID()))) in CREATED
-//@   ensures [gone] DP == remove(old(DP), RuleKey(seid, 2, uint64(val(req.FARID()))))
+//@   ensures [gone] err == nil ==> DP == remove(old(DP), RuleKey(seid, 2, uint64(val(req.FARID()))))
+//@   ensures [kept] err != nil ==> DP == old(DP)
 //@   modifies DP
 
 //@ func (d Driver) CreateQER(seid uint64, req *ie.IE) (err error)
@@ -70,7 +72,8 @@ package forwarder
 //@ func (d Driver) RemoveQER(seid uint64, req *ie.IE) (err error)
 //@   requires req != nil
 //@   requires [made] RuleKey(seid, 3, uint64(val(req.QERID()))) in CREATED
-//@   ensures [gone] DP == remove(old(DP), RuleKey(seid, 3, uint64(val(req.QERID()))))
+//@   ensures [gone] err == nil ==> DP == remove(old(DP), RuleKey(seid, 3, uint64(val(req.QERID()))))
+//@   ensures [kept] err != nil ==> DP == old(DP)
 //@   modifies DP
 
 //@ func (d Driver) CreateURR(seid uint64, req *ie.IE) (err error)
@@ -90,7 +93,8 @@ package forwarder
 //@ func (d Driver) RemoveURR(seid uint64, req *ie.IE) (usars []report.USAReport, err error)
 //@   requires req != nil
 //@   requires [made] RuleKey(seid, 4, uint64(val(req.URRID()))) in CREATED
-//@   ensures [gone] DP == remove(old(DP), RuleKey(seid, 4, uint64(val(req.URRID()))))
+//@   ensures [gone] err == nil ==> DP == remove(old(DP), RuleKey(seid, 4, uint64(val(req.URRID()))))
+//@   ensures [kept] err != nil ==> DP == old(DP)
 //@   ensures [freshres] usars == nil || fresh(usars)
 //@   modifies DP
 
@@ -110,7 +114,8 @@ package forwarder
 //@ func (d Driver) RemoveBAR(seid uint64, req *ie.IE) (err error)
 //@   requires req != nil
 //@   requires [made] RuleKey(seid, 5, uint64(val(req.BARID()))) in CREATED
-//@   ensures [gone] DP == remove(old(DP), RuleKey(seid, 5, uint64(val(req.BARID()))))
+//@   ensures [gone] err == nil ==> DP == remove(old(DP), RuleKey(seid, 5, uint64(val(req.BARID()))))
+//@   ensures [kept] err != nil ==> DP == old(DP)
 //@   modifies DP
 
 //@ func (d Driver) QueryURR(seid uint64, urrid uint32) (usars []report.USAReport, err error)
@@ -184,12 +189,13 @@ package forwarder
 //@   locals farid:uint64 | attrs:[]nl.Attr | act:report.ApplyAction | hasAct:bool | ies:[]*ie.IE | err:error | i:*ie.IE | v:uint32 | err:error | b:[]byte | err:error | xs:[]*ie.IE | err:error | v:nl.AttrList | v:uint8 | err:error | oid:gtp5gnl.OID
 //@   requires g != nil && g.link != nil && g.link.conn != nil && g.bsnl != nil && g.bsnl.handler != nil && req != nil
 //@   modifies *
-//@   serves C13 C02 C07
+//@   serves C13 C02 C07 C05
 //@   at call append#1:
 //@     assert [act]  len(arg1) == 1 && arg1[0].Type == gtp5gnl.FAR_APPLY_ACTION && arg1[0].Value == iface(nl.AttrU16(act.Flags))
 //@   at call append#2:
 //@     assert [fp]   len(arg1) == 1 && arg1[0].Type == gtp5gnl.FAR_FORWARDING_PARAMETER && arg1[0].Value == iface(v)
 //@   at call append#3:
+//@     reached [emit] when i.Type == ie.BARID && ok(i.BARID())
 //@     assert [bar]  len(arg1) == 1 && arg1[0].Type == gtp5gnl.FAR_BAR_ID && arg1[0].Value == iface(nl.AttrU8(v))
 //@   after call UpdateFAR:
 //@     set APPLIED := false
@@ -210,12 +216,14 @@ package forwarder
 //@   locals barid:uint64 | attrs:[]nl.Attr | ies:[]*ie.IE | err:error | i:*ie.IE | v:uint8 | err:error | v:time.Duration | err:error | v:uint8 | err:error | oid:gtp5gnl.OID
 //@   requires g != nil && g.link != nil && req != nil
 //@   modifies nothing
-//@   serves C03 C07
+//@   serves C03 C07 C05
 //@   loop range(ies):
 //@     modifies nothing
 //@   at call append#1:
+//@     reached [emit] when i.Type == ie.DownlinkDataNotificationDelay && ok(i.DownlinkDataNotificationDelay())
 //@     assert [delay] len(arg1) == 1 && arg1[0].Type == gtp5gnl.BAR_DOWNLINK_DATA_NOTIFICATION_DELAY && arg1[0].Value == iface(nl.AttrU8(uint8(v / 50000000)))
 //@   at call append#2:
+//@     reached [emit] when i.Type == ie.SuggestedBufferingPacketsCount && ok(i.SuggestedBufferingPacketsCount())
 //@     assert [count] len(arg1) == 1 && arg1[0].Type == gtp5gnl.BAR_BUFFERING_PACKETS_COUNT && arg1[0].Value == iface(nl.AttrU16(v))
 //@   at call CreateBAROID:
 //@     assert [oid]   len(arg2) == 2 && arg2[0] == lSeid && arg2[1] == barid && arg3 == attrs
@@ -224,12 +232,14 @@ package forwarder
 //@   locals barid:uint64 | attrs:[]nl.Attr | ies:[]*ie.IE | err:error | i:*ie.IE | v:uint8 | err:error | v:time.Duration | err:error | v:uint8 | err:error | oid:gtp5gnl.OID
 //@   requires g != nil && g.link != nil && req != nil
 //@   modifies nothing
-//@   serves C03 C07
+//@   serves C03 C07 C05
 //@   loop range(ies):
 //@     modifies nothing
 //@   at call append#1:
+//@     reached [emit] when i.Type == ie.DownlinkDataNotificationDelay && ok(i.DownlinkDataNotificationDelay())
 //@     assert [delay] len(arg1) == 1 && arg1[0].Type == gtp5gnl.BAR_DOWNLINK_DATA_NOTIFICATION_DELAY && arg1[0].Value == iface(nl.AttrU8(uint8(v / 50000000)))
 //@   at call append#2:
+//@     reached [emit] when i.Type == ie.SuggestedBufferingPacketsCount && ok(i.SuggestedBufferingPacketsCount())
 //@     assert [count] len(arg1) == 1 && arg1[0].Type == gtp5gnl.BAR_BUFFERING_PACKETS_COUNT && arg1[0].Value == iface(nl.AttrU16(v))
 //@   at call UpdateBAROID:
 //@     assert [oid]   len(arg2) == 2 && arg2[0] == lSeid && arg2[1] == barid && arg3 == attrs
@@ -274,14 +284,16 @@ package forwarder
 //@   locals urrid:uint32 | measureMethod:uint8 | rptTrig:report.ReportingTrigger | measurePeriod:time.Duration | attrs:[]nl.Attr | ies:[]*ie.IE | err:error | i:*ie.IE | v:[]byte | v:uint8 | err:error | v:nl.AttrList | err:error | v:nl.AttrList | err:error | oid:gtp5gnl.OID
 //@   requires g != nil && g.link != nil && g.ps != nil && req != nil
 //@   modifies *
-//@   serves C03 C07 C15
+//@   serves C03 C07 C15 C05
 //@   loop range(ies):
 //@     modifies rptTrig.*
 //@   at call append#1:
+//@     reached [emit] when i.Type == ie.MeasurementMethod && ok(i.MeasurementMethod())
 //@     assert [method] len(arg1) == 1 && arg1[0].Type == gtp5gnl.URR_MEASUREMENT_METHOD && arg1[0].Value == iface(nl.AttrU8(measureMethod))
 //@   at call append#2:
 //@     assert [trigger] len(arg1) == 1 && arg1[0].Type == gtp5gnl.URR_REPORTING_TRIGGER && arg1[0].Value == iface(nl.AttrU32(rptTrig.Flags))
 //@   at call append#4:
+//@     reached [emit] when i.Type == ie.MeasurementInformation && ok(i.MeasurementInformation())
 //@     assert [info]   len(arg1) == 1 && arg1[0].Type == gtp5gnl.URR_MEASUREMENT_INFO && arg1[0].Value == iface(nl.AttrU64(uint64(v)))
 //@   at call append#5:
 //@     assert [threshold] len(arg1) == 1 && arg1[0].Type == gtp5gnl.URR_VOLUME_THRESHOLD && arg1[0].Value == iface(v)
@@ -301,18 +313,21 @@ package forwarder
 //@   ensures [perio] err == nil && ok(req.URRID()) && ok(req.ReportingTriggers()) && len(val(req.ReportingTriggers())) >= 1 ==>
 //@                     ((val(req.ReportingTriggers())[0] & 1 != 0) == (RuleKey(lSeid, 4, uint64(val(req.URRID()))) in PERIOREQ))
 //@   modifies *
-//@   serves C03 C07
+//@   serves C03 C07 C05
 //@   at call append#1:
+//@     reached [emit] when i.Type == ie.MeasurementMethod && ok(i.MeasurementMethod())
 //@     assert [method] len(arg1) == 1 && arg1[0].Type == gtp5gnl.URR_MEASUREMENT_METHOD && arg1[0].Value == iface(nl.AttrU8(v))
 //@   at call append#2:
 //@     assert [trigger] len(arg1) == 1 && arg1[0].Type == gtp5gnl.URR_REPORTING_TRIGGER && arg1[0].Value == iface(nl.AttrU32(rptTrig.Flags))
 //@   at call append#4:
+//@     reached [emit] when i.Type == ie.MeasurementInformation && ok(i.MeasurementInformation())
 //@     assert [info]   len(arg1) == 1 && arg1[0].Type == gtp5gnl.URR_MEASUREMENT_INFO && arg1[0].Value == iface(nl.AttrU64(uint64(v)))
 //@   at call append#5:
 //@     assert [threshold] len(arg1) == 1 && arg1[0].Type == gtp5gnl.URR_VOLUME_THRESHOLD && arg1[0].Value == iface(v)
 //@   at call append#6:
 //@     assert [quota]  len(arg1) == 1 && arg1[0].Type == gtp5gnl.URR_VOLUME_QUOTA && arg1[0].Value == iface(v)
 //@   at call append#3:
+//@     reached [emit] when i.Type == ie.MeasurementPeriod && ok(i.MeasurementPeriod())
 //@     assert [period] len(arg1) == 1 && arg1[0].Type == gtp5gnl.URR_MEASUREMENT_PERIOD && arg1[0].Value == iface(nl.AttrU32(uint32(v / 1000000000)))
 //@   at call UpdateURROID:
 //@     assert [oid]   len(arg2) == 2 && arg2[0] == lSeid && arg2[1] == urrid && arg3 == attrs
@@ -328,7 +343,7 @@ package forwarder
 //@   requires g != nil && g.link != nil && g.ps != nil && req != nil
 //@   ensures [unreg] ok(req.URRID()) ==> !(RuleKey(lSeid, 4, uint64(val(req.URRID()))) in PERIOREQ)
 //@   modifies *
-//@   serves C03 C10 C07 C15
+//@   serves C03 C10 C07 C15 C05
 //@   at call RemoveURROID:
 //@     assert [oid]   len(arg2) == 2 && arg2[0] == lSeid && arg2[1] == uint64(val(req.URRID()))
 //@   at call append:
@@ -345,30 +360,37 @@ package forwarder
 //@   locals qerid:uint64 | attrs:[]nl.Attr | ies:[]*ie.IE | err:error | i:*ie.IE | v:uint32 | err:error | v:uint32 | err:error | v:uint8 | err:error | ul:uint64 | err:error | dl:uint64 | ul:uint64 | err:error | dl:uint64 | v:uint8 | err:error | v:uint8 | err:error | v:uint8 | err:error | oid:gtp5gnl.OID
 //@   requires g != nil && g.link != nil && req != nil
 //@   modifies nothing
-//@   serves C03 C07
+//@   serves C03 C07 C05
 //@   loop range(ies):
 //@     modifies nothing
 //@   at call append#1:
+//@     reached [emit] when i.Type == ie.QERCorrelationID && ok(i.QERCorrelationID())
 //@     assert [corr] len(arg1) == 1 && arg1[0].Type == gtp5gnl.QER_CORR_ID && arg1[0].Value == iface(nl.AttrU32(v))
 //@   at call append#2:
+//@     reached [emit] when i.Type == ie.GateStatus && ok(i.GateStatus())
 //@     assert [gate] len(arg1) == 1 && arg1[0].Type == gtp5gnl.QER_GATE && arg1[0].Value == iface(nl.AttrU8(v))
 //@   at call append#3:
+//@     reached [emit] when i.Type == ie.MBR && ok(i.MBRUL()) && ok(i.MBRDL())
 //@     assert [mbr]  len(arg1) == 1 && arg1[0].Type == gtp5gnl.QER_MBR && typeis(arg1[0].Value, nl.AttrList) && len(arg1[0].Value.(nl.AttrList)) == 4 &&
 //@                   arg1[0].Value.(nl.AttrList)[0].Type == gtp5gnl.QER_MBR_UL_HIGH32 && arg1[0].Value.(nl.AttrList)[0].Value == iface(nl.AttrU32(uint32(ul >> 8))) &&
 //@                   arg1[0].Value.(nl.AttrList)[1].Type == gtp5gnl.QER_MBR_UL_LOW8 && arg1[0].Value.(nl.AttrList)[1].Value == iface(nl.AttrU8(uint8(ul))) &&
 //@                   arg1[0].Value.(nl.AttrList)[2].Type == gtp5gnl.QER_MBR_DL_HIGH32 && arg1[0].Value.(nl.AttrList)[2].Value == iface(nl.AttrU32(uint32(dl >> 8))) &&
 //@                   arg1[0].Value.(nl.AttrList)[3].Type == gtp5gnl.QER_MBR_DL_LOW8 && arg1[0].Value.(nl.AttrList)[3].Value == iface(nl.AttrU8(uint8(dl)))
 //@   at call append#4:
+//@     reached [emit] when i.Type == ie.GBR && ok(i.GBRUL()) && ok(i.GBRDL())
 //@     assert [gbr]  len(arg1) == 1 && arg1[0].Type == gtp5gnl.QER_GBR && typeis(arg1[0].Value, nl.AttrList) && len(arg1[0].Value.(nl.AttrList)) == 4 &&
 //@                   arg1[0].Value.(nl.AttrList)[0].Type == gtp5gnl.QER_GBR_UL_HIGH32 && arg1[0].Value.(nl.AttrList)[0].Value == iface(nl.AttrU32(uint32(ul >> 8))) &&
 //@                   arg1[0].Value.(nl.AttrList)[1].Type == gtp5gnl.QER_GBR_UL_LOW8 && arg1[0].Value.(nl.AttrList)[1].Value == iface(nl.AttrU8(uint8(ul))) &&
 //@                   arg1[0].Value.(nl.AttrList)[2].Type == gtp5gnl.QER_GBR_DL_HIGH32 && arg1[0].Value.(nl.AttrList)[2].Value == iface(nl.AttrU32(uint32(dl >> 8))) &&
 //@                   arg1[0].Value.(nl.AttrList)[3].Type == gtp5gnl.QER_GBR_DL_LOW8 && arg1[0].Value.(nl.AttrList)[3].Value == iface(nl.AttrU8(uint8(dl)))
 //@   at call append#5:
+//@     reached [emit] when i.Type == ie.QFI && ok(i.QFI())
 //@     assert [qfi]  len(arg1) == 1 && arg1[0].Type == gtp5gnl.QER_QFI && arg1[0].Value == iface(nl.AttrU8(v))
 //@   at call append#6:
+//@     reached [emit] when i.Type == ie.RQI && ok(i.RQI())
 //@     assert [rqi]  len(arg1) == 1 && arg1[0].Type == gtp5gnl.QER_RQI && arg1[0].Value == iface(nl.AttrU8(v))
 //@   at call append#7:
+//@     reached [emit] when i.Type == ie.PagingPolicyIndicator && ok(i.PagingPolicyIndicator())
 //@     assert [ppi]  len(arg1) == 1 && arg1[0].Type == gtp5gnl.QER_PPI && arg1[0].Value == iface(nl.AttrU8(v))
 //@   at call CreateQEROID:
 //@     assert [oid]  len(arg2) == 2 && arg2[0] == lSeid && arg2[1] == qerid && arg3 == attrs
@@ -377,30 +399,37 @@ package forwarder
 //@   locals qerid:uint64 | attrs:[]nl.Attr | ies:[]*ie.IE | err:error | i:*ie.IE | v:uint32 | err:error | v:uint32 | err:error | v:uint8 | err:error | ul:uint64 | err:error | dl:uint64 | ul:uint64 | err:error | dl:uint64 | v:uint8 | err:error | v:uint8 | err:error | v:uint8 | err:error | oid:gtp5gnl.OID
 //@   requires g != nil && g.link != nil && req != nil
 //@   modifies nothing
-//@   serves C03 C07
+//@   serves C03 C07 C05
 //@   loop range(ies):
 //@     modifies nothing
 //@   at call append#1:
+//@     reached [emit] when i.Type == ie.QERCorrelationID && ok(i.QERCorrelationID())
 //@     assert [corr] len(arg1) == 1 && arg1[0].Type == gtp5gnl.QER_CORR_ID && arg1[0].Value == iface(nl.AttrU32(v))
 //@   at call append#2:
+//@     reached [emit] when i.Type == ie.GateStatus && ok(i.GateStatus())
 //@     assert [gate] len(arg1) == 1 && arg1[0].Type == gtp5gnl.QER_GATE && arg1[0].Value == iface(nl.AttrU8(v))
 //@   at call append#3:
+//@     reached [emit] when i.Type == ie.MBR && ok(i.MBRUL()) && ok(i.MBRDL())
 //@     assert [mbr]  len(arg1) == 1 && arg1[0].Type == gtp5gnl.QER_MBR && typeis(arg1[0].Value, nl.AttrList) && len(arg1[0].Value.(nl.AttrList)) == 4 &&
 //@                   arg1[0].Value.(nl.AttrList)[0].Type == gtp5gnl.QER_MBR_UL_HIGH32 && arg1[0].Value.(nl.AttrList)[0].Value == iface(nl.AttrU32(uint32(ul >> 8))) &&
 //@                   arg1[0].Value.(nl.AttrList)[1].Type == gtp5gnl.QER_MBR_UL_LOW8 && arg1[0].Value.(nl.AttrList)[1].Value == iface(nl.AttrU8(uint8(ul))) &&
 //@                   arg1[0].Value.(nl.AttrList)[2].Type == gtp5gnl.QER_MBR_DL_HIGH32 && arg1[0].Value.(nl.AttrList)[2].Value == iface(nl.AttrU32(uint32(dl >> 8))) &&
 //@                   arg1[0].Value.(nl.AttrList)[3].Type == gtp5gnl.QER_MBR_DL_LOW8 && arg1[0].Value.(nl.AttrList)[3].Value == iface(nl.AttrU8(uint8(dl)))
 //@   at call append#4:
+//@     reached [emit] when i.Type == ie.GBR && ok(i.GBRUL()) && ok(i.GBRDL())
 //@     assert [gbr]  len(arg1) == 1 && arg1[0].Type == gtp5gnl.QER_GBR && typeis(arg1[0].Value, nl.AttrList) && len(arg1[0].Value.(nl.AttrList)) == 4 &&
 //@                   arg1[0].Value.(nl.AttrList)[0].Type == gtp5gnl.QER_GBR_UL_HIGH32 && arg1[0].Value.(nl.AttrList)[0].Value == iface(nl.AttrU32(uint32(ul >> 8))) &&
 //@                   arg1[0].Value.(nl.AttrList)[1].Type == gtp5gnl.QER_GBR_UL_LOW8 && arg1[0].Value.(nl.AttrList)[1].Value == iface(nl.AttrU8(uint8(ul))) &&
 //@                   arg1[0].Value.(nl.AttrList)[2].Type == gtp5gnl.QER_GBR_DL_HIGH32 && arg1[0].Value.(nl.AttrList)[2].Value == iface(nl.AttrU32(uint32(dl >> 8))) &&
 //@                   arg1[0].Value.(nl.AttrList)[3].Type == gtp5gnl.QER_GBR_DL_LOW8 && arg1[0].Value.(nl.AttrList)[3].Value == iface(nl.AttrU8(uint8(dl)))
 //@   at call append#5:
+//@     reached [emit] when i.Type == ie.QFI && ok(i.QFI())
 //@     assert [qfi]  len(arg1) == 1 && arg1[0].Type == gtp5gnl.QER_QFI && arg1[0].Value == iface(nl.AttrU8(v))
 //@   at call append#6:
+//@     reached [emit] when i.Type == ie.RQI && ok(i.RQI())
 //@     assert [rqi]  len(arg1) == 1 && arg1[0].Type == gtp5gnl.QER_RQI && arg1[0].Value == iface(nl.AttrU8(v))
 //@   at call append#7:
+//@     reached [emit] when i.Type == ie.PagingPolicyIndicator && ok(i.PagingPolicyIndicator())
 //@     assert [ppi]  len(arg1) == 1 && arg1[0].Type == gtp5gnl.QER_PPI && arg1[0].Value == iface(nl.AttrU8(v))
 //@   at call UpdateQEROID:
 //@     assert [oid]  len(arg2) == 2 && arg2[0] == lSeid && arg2[1] == qerid && arg3 == attrs
@@ -412,22 +441,27 @@ package forwarder
 //@   locals pdrid:uint64 | attrs:[]nl.Attr | ies:[]*ie.IE | err:error | i:*ie.IE | v:uint16 | err:error | v:uint32 | err:error | v:nl.AttrList | err:error | v:uint8 | err:error | v:uint32 | err:error | v:uint32 | err:error | v:uint32 | err:error | oid:gtp5gnl.OID
 //@   requires g != nil && g.link != nil && req != nil
 //@   modifies FDSRC, FDDST
-//@   serves C02 C07
+//@   serves C02 C07 C05
 //@   loop range(ies):
 //@     modifies FDSRC, FDDST
 //@   at call newPdi:
 //@     assert [pdi]  arg0 == i
 //@   at call append#1:
+//@     reached [emit] when i.Type == ie.Precedence && ok(i.Precedence())
 //@     assert [prec] len(arg1) == 1 && arg1[0].Type == gtp5gnl.PDR_PRECEDENCE && arg1[0].Value == iface(nl.AttrU32(v))
 //@   at call append#2:
 //@     assert [pdi]  len(arg1) == 1 && arg1[0].Type == gtp5gnl.PDR_PDI && arg1[0].Value == iface(v)
 //@   at call append#3:
+//@     reached [emit] when i.Type == ie.OuterHeaderRemoval && ok(i.OuterHeaderRemovalDescription())
 //@     assert [ohr]  len(arg1) == 1 && arg1[0].Type == gtp5gnl.PDR_OUTER_HEADER_REMOVAL && arg1[0].Value == iface(nl.AttrU8(v))
 //@   at call append#4:
+//@     reached [emit] when i.Type == ie.FARID && ok(i.FARID())
 //@     assert [far]  len(arg1) == 1 && arg1[0].Type == gtp5gnl.PDR_FAR_ID && arg1[0].Value == iface(nl.AttrU32(v))
 //@   at call append#5:
+//@     reached [emit] when i.Type == ie.QERID && ok(i.QERID())
 //@     assert [qer]  len(arg1) == 1 && arg1[0].Type == gtp5gnl.PDR_QER_ID && arg1[0].Value == iface(nl.AttrU32(v))
 //@   at call append#6:
+//@     reached [emit] when i.Type == ie.URRID && ok(i.URRID())
 //@     assert [urr]  len(arg1) == 1 && arg1[0].Type == gtp5gnl.PDR_URR_ID && arg1[0].Value == iface(nl.AttrU32(v))
 //@   at call append#7:
 //@     assert [sock] len(arg1) == 1 && arg1[0].Type == gtp5gnl.PDR_UNIX_SOCKET_PATH
@@ -438,22 +472,27 @@ package forwarder
 //@   locals pdrid:uint64 | attrs:[]nl.Attr | ies:[]*ie.IE | err:error | i:*ie.IE | v:uint16 | err:error | v:uint32 | err:error | v:nl.AttrList | err:error | v:uint8 | err:error | v:uint32 | err:error | v:uint32 | err:error | v:uint32 | err:error | oid:gtp5gnl.OID
 //@   requires g != nil && g.link != nil && req != nil
 //@   modifies FDSRC, FDDST
-//@   serves C02 C07
+//@   serves C02 C07 C05
 //@   loop range(ies):
 //@     modifies FDSRC, FDDST
 //@   at call newPdi:
 //@     assert [pdi]  arg0 == i
 //@   at call append#1:
+//@     reached [emit] when i.Type == ie.Precedence && ok(i.Precedence())
 //@     assert [prec] len(arg1) == 1 && arg1[0].Type == gtp5gnl.PDR_PRECEDENCE && arg1[0].Value == iface(nl.AttrU32(v))
 //@   at call append#2:
 //@     assert [pdi]  len(arg1) == 1 && arg1[0].Type == gtp5gnl.PDR_PDI && arg1[0].Value == iface(v)
 //@   at call append#3:
+//@     reached [emit] when i.Type == ie.OuterHeaderRemoval && ok(i.OuterHeaderRemovalDescription())
 //@     assert [ohr]  len(arg1) == 1 && arg1[0].Type == gtp5gnl.PDR_OUTER_HEADER_REMOVAL && arg1[0].Value == iface(nl.AttrU8(v))
 //@   at call append#4:
+//@     reached [emit] when i.Type == ie.FARID && ok(i.FARID())
 //@     assert [far]  len(arg1) == 1 && arg1[0].Type == gtp5gnl.PDR_FAR_ID && arg1[0].Value == iface(nl.AttrU32(v))
 //@   at call append#5:
+//@     reached [emit] when i.Type == ie.QERID && ok(i.QERID())
 //@     assert [qer]  len(arg1) == 1 && arg1[0].Type == gtp5gnl.PDR_QER_ID && arg1[0].Value == iface(nl.AttrU32(v))
 //@   at call append#6:
+//@     reached [emit] when i.Type == ie.URRID && ok(i.URRID())
 //@     assert [urr]  len(arg1) == 1 && arg1[0].Type == gtp5gnl.PDR_URR_ID && arg1[0].Value == iface(nl.AttrU32(v))
 //@   at call UpdatePDROID:
 //@     assert [oid]  len(arg2) == 2 && arg2[0] == lSeid && arg2[1] == pdrid && arg3 == attrs
@@ -469,12 +508,15 @@ package forwarder
 //@   loop range(sdfIEs):
 //@     modifies FDSRC, FDDST
 //@   at call append#1:
+//@     reached [emit] when x.Type == ie.SourceInterface && ok(x.SourceInterface())
 //@     assert [srcif] len(arg1) == 1 && arg1[0].Type == gtp5gnl.PDI_SRC_INTF && arg1[0].Value == iface(nl.AttrU8(v))
 //@   at call append#2:
+//@     reached [emit] when x.Type == ie.FTEID && ok(x.FTEID())
 //@     assert [fteid] len(arg1) == 1 && arg1[0].Type == gtp5gnl.PDI_F_TEID && typeis(arg1[0].Value, nl.AttrList) && len(arg1[0].Value.(nl.AttrList)) == 2 &&
 //@                    arg1[0].Value.(nl.AttrList)[0].Type == gtp5gnl.F_TEID_I_TEID && arg1[0].Value.(nl.AttrList)[0].Value == iface(nl.AttrU32(v.TEID)) &&
 //@                    arg1[0].Value.(nl.AttrList)[1].Type == gtp5gnl.F_TEID_GTPU_ADDR_IPV4 && arg1[0].Value.(nl.AttrList)[1].Value == iface(nl.AttrBytes(v.IPv4Address))
 //@   at call append#3:
+//@     reached [emit] when x.Type == ie.UEIPAddress && ok(x.UEIPAddress())
 //@     assert [ueip]  len(arg1) == 1 && arg1[0].Type == gtp5gnl.PDI_UE_ADDR_IPV4 && arg1[0].Value == iface(nl.AttrBytes(v.IPv4Address))
 //@   at call newSdfFilter:
 //@     assert [swap]  arg0 == x && arg1 == srcIf
@@ -489,6 +531,7 @@ package forwarder
 //@   loop range(ies):
 //@     modifies nothing
 //@   at call append#1:
+//@     reached [emit] when x.Type == ie.OuterHeaderCreation && ok(x.OuterHeaderCreation())
 //@     assert [desc] len(arg1) == 1 && arg1[0].Type == gtp5gnl.OUTER_HEADER_CREATION_DESCRIPTION && arg1[0].Value == iface(nl.AttrU16(v.OuterHeaderCreationDescription))
 //@   at call append#2:
 //@     assert [teid] len(arg1) == 1 && arg1[0].Type == gtp5gnl.OUTER_HEADER_CREATION_O_TEID && arg1[0].Value == iface(nl.AttrU32(v.TEID))
@@ -499,17 +542,20 @@ package forwarder
 //@   at call append#5:
 //@     assert [peer] len(arg1) == 1 && arg1[0].Type == gtp5gnl.OUTER_HEADER_CREATION_PEER_ADDR_IPV4 && arg1[0].Value == iface(nl.AttrBytes(v.IPv4Address))
 //@   at call append#6:
+//@     reached [emit] when x.Type == ie.OuterHeaderCreation && ok(x.OuterHeaderCreation())
 //@     assert [ohc]  len(arg1) == 1 && arg1[0].Type == gtp5gnl.FORWARDING_PARAMETER_OUTER_HEADER_CREATION && arg1[0].Value == iface(hc)
 //@   at call append#7:
+//@     reached [emit] when x.Type == ie.ForwardingPolicy && ok(x.ForwardingPolicyIdentifier())
 //@     assert [policy] len(arg1) == 1 && arg1[0].Type == gtp5gnl.FORWARDING_PARAMETER_FORWARDING_POLICY && arg1[0].Value == iface(nl.AttrString(v))
 //@   at call append#8:
+//@     reached [emit] when x.Type == ie.PFCPSMReqFlags && ok(x.PFCPSMReqFlags())
 //@     assert [smreq] len(arg1) == 1 && arg1[0].Type == gtp5gnl.FORWARDING_PARAMETER_PFCPSM_REQ_FLAGS && arg1[0].Value == iface(nl.AttrU8(v))
 
 //@ func (g *Gtp5g) CreateFAR(lSeid uint64, req *ie.IE) (err error)
 //@   locals farid:uint64 | attrs:[]nl.Attr | ies:[]*ie.IE | err:error | i:*ie.IE | v:uint32 | err:error | b:[]byte | err:error | act:report.ApplyAction | xs:[]*ie.IE | err:error | v:nl.AttrList | v:uint8 | err:error | oid:gtp5gnl.OID
 //@   requires g != nil && g.link != nil && req != nil
 //@   modifies nothing
-//@   serves C02 C07
+//@   serves C02 C07 C05
 //@   loop range(ies):
 //@     modifies nothing
 //@   at call newForwardingParameter:
@@ -519,6 +565,7 @@ package forwarder
 //@   at call append#2:
 //@     assert [fp]   len(arg1) == 1 && arg1[0].Type == gtp5gnl.FAR_FORWARDING_PARAMETER && arg1[0].Value == iface(v)
 //@   at call append#3:
+//@     reached [emit] when i.Type == ie.BARID && ok(i.BARID())
 //@     assert [bar]  len(arg1) == 1 && arg1[0].Type == gtp5gnl.FAR_BAR_ID && arg1[0].Value == iface(nl.AttrU8(v))
 //@   at call CreateFAROID:
 //@     assert [oid]  len(arg2) == 2 && arg2[0] == lSeid && arg2[1] == farid && arg3 == attrs
@@ -598,6 +645,7 @@ package forwarder
 //@   at call ParseUint:
 //@     assert [proto]  arg0 == token[2] && token[2] != "ip" && arg1 == 10 && arg2 == 8 && token[0] == "permit" && token[1] == fd.Dir
 //@   at call ParseFlowDescIPNet#1:
+//@     reached [accepts] when len(token) >= 5 && token[0] == "permit" && (token[1] == "in" || token[1] == "out") && (token[2] == "ip" || ok(strconv.ParseUint(token[2], 10, 8))) && token[3] == "from"
 //@     assert [src]    arg0 == token[4] && token[3] == "from" && token[0] == "permit" && token[1] == fd.Dir && (token[2] == "ip" ==> fd.Proto == 0xff)
 //@   at call ParseFlowDescPorts#1:
 //@     assert [sports] arg0 == token[5] && fd.Src != nil
@@ -719,7 +767,7 @@ package forwarder
 //@   requires g != nil && g.link != nil
 //@   ensures [err] err != nil ==> usars == nil
 //@   modifies nothing
-//@   serves C10 C12 C07
+//@   serves C10 C12 C07 C05
 //@   loop range(rs):
 //@     modifies r.*
 //@     invariant [n] len(usars) == idx
@@ -734,7 +782,7 @@ package forwarder
 //@ func (g *Gtp5g) QueryURR(lSeid uint64, urrid uint32) (usars []report.USAReport, err error)
 //@   requires g != nil && g.link != nil
 //@   modifies nothing
-//@   serves C10 C12 C07 C17
+//@   serves C10 C12 C07 C17 C05
 //@   at call queryURR:
 //@     assert [args] arg0 == lSeid && arg1 == urrid && !arg2
 
@@ -765,28 +813,28 @@ package forwarder
 //@   locals v:uint16 | err:error | oid:gtp5gnl.OID
 //@   requires g != nil && g.link != nil && req != nil
 //@   modifies nothing
-//@   serves C02 C07
+//@   serves C02 C07 C05
 //@   at call RemovePDROID:
 //@     assert [oid] len(arg2) == 2 && arg2[0] == lSeid && arg2[1] == uint64(val(req.PDRID()))
 //@ func (g *Gtp5g) RemoveFAR(lSeid uint64, req *ie.IE) (err error)
 //@   locals v:uint32 | err:error | oid:gtp5gnl.OID
 //@   requires g != nil && g.link != nil && req != nil
 //@   modifies nothing
-//@   serves C02 C07
+//@   serves C02 C07 C05
 //@   at call RemoveFAROID:
 //@     assert [oid] len(arg2) == 2 && arg2[0] == lSeid && arg2[1] == uint64(val(req.FARID()))
 //@ func (g *Gtp5g) RemoveQER(lSeid uint64, req *ie.IE) (err error)
 //@   locals v:uint32 | err:error | oid:gtp5gnl.OID
 //@   requires g != nil && g.link != nil && req != nil
 //@   modifies nothing
-//@   serves C03 C07
+//@   serves C03 C07 C05
 //@   at call RemoveQEROID:
 //@     assert [oid] len(arg2) == 2 && arg2[0] == lSeid && arg2[1] == uint64(val(req.QERID()))
 //@ func (g *Gtp5g) RemoveBAR(lSeid uint64, req *ie.IE) (err error)
 //@   locals v:uint8 | err:error | oid:gtp5gnl.OID
 //@   requires g != nil && g.link != nil && req != nil
 //@   modifies nothing
-//@   serves C03 C07
+//@   serves C03 C07 C05
 //@   at call RemoveBAROID:
 //@     assert [oid] len(arg2) == 2 && arg2[0] == lSeid && arg2[1] == uint64(val(req.BARID()))
 
